@@ -14,9 +14,34 @@ def _obj(x):
     return a
 
 
+def _sym_scalar(e):
+    return isinstance(e, (R, Dual)) or isinstance(getattr(e, "r", None), R)
+
+
+class IntObj(_np.ndarray):
+    """object array standing for an *integer-dtype* numpy array (what np.array makes of a sequence of Python ints): values
+    assigned into it are truncated toward zero, as numpy does when it casts floats into an integer array"""
+    def __setitem__(self, k, val):
+        def tr(e):
+            r = getattr(e, "r", e)
+            return int(r) if isinstance(r, R) else (int(e) if isinstance(e, (float, _np.floating)) else e)
+        if isinstance(val, (list, tuple, _np.ndarray)):
+            val = [tr(e) for e in val]
+        else:
+            val = tr(val)
+        _np.ndarray.__setitem__(self, k, val)
+
+
 def _method(name):
     def f(*a, **kw):
         x = a[0]
+        if isinstance(x, (list, tuple)) and any(_sym_scalar(e) for e in x):
+            # a sequence holding symbolic scalars: elementwise, as numpy would do on the converted array
+            return _obj([f(e, *a[1:]) for e in x])
+        if isinstance(x, _np.ndarray) and x.dtype == object and x.ndim == 1 and any(isinstance(getattr(e, "r", None), R) for e in x):
+            return _obj([f(e, *a[1:]) for e in x])
+        if isinstance(getattr(x, "r", None), R) and not isinstance(x, (R, Dual)):     # dtmodel.SF / SI
+            return getattr(x.r, name)(*a[1:])
         if isinstance(x, _np.ndarray):
             return getattr(_np, name)(*a, **kw)
         if isinstance(x, (R, Dual)):
@@ -122,6 +147,10 @@ class NP:
 
     @staticmethod
     def array(x, dtype=None, **kw):
+        if dtype is None and isinstance(x, (list, tuple)) and x and all(isinstance(e, int) and not isinstance(e, bool) for e in x) \
+                and any(isinstance(getattr(e, "r", None), R) for e in x):
+            # all Python ints (some symbolic): numpy would infer an integer dtype
+            return _np.array(list(x), dtype=object).view(IntObj)
         return _np.array(x, dtype=object)
 
     @staticmethod
